@@ -311,7 +311,9 @@ def run_harness(h, base_t, dst, scratch, envadd, playback=False, scale=1.0, slic
             goto = find_goto(tdir, name)
             if rc != 0 or not goto:
                 res["status"] = "BUILD_FAILED"
-                res["detail"] = out[-4000:]
+                errl = [i for i, l in enumerate(out.splitlines()) if re.match(r"^error(\[E\d+\])?: ", l)]
+                ol = out.splitlines()
+                res["detail"] = ("\n".join("\n".join(ol[i:i + 14]) for i in errl[:4]) or out[-4000:])[:4000]
                 return res
             sel, unmatched, nloops = resolve_unwindset(goto, uws, os.path.join(logd, name + ".loops.log"))
             res["unwindset"] = {"resolved_loops": len(sel), "total_loops": nloops, "spec": uws}
@@ -425,9 +427,13 @@ def harness_stubs(logtext):
         o = orig.replace(" ", "")
         st = stub.replace(" ", "")
         m = re.match(r"^crate::(\w+)::(\w+)$", o)
-        if not m:
+        if m:
+            out.append((m.group(1), m.group(2), st))
             continue
-        out.append((m.group(1), m.group(2), st))
+        # inherent method: crate::module::Type::method (redirected inside its impl block, see apply_stubs_natively)
+        m = re.match(r"^crate::(\w+)::([A-Z]\w*)::(\w+)$", o)
+        if m:
+            out.append((m.group(1), m.group(2) + "::" + m.group(3), st))
     return out
 
 
@@ -472,6 +478,37 @@ def apply_stubs_natively(rdir, scratch, harness_module, stubs):
             else:
                 cur += ch
         src = open(sp).read()
+        if "::" in fname:
+            # a method: keep the original header (receiver included), rename the real one, and put a forwarder with the
+            # original header in front of it inside the same impl block; the stub takes the receiver as first argument
+            tname, mname = fname.split("::")
+            om = re.search(r"^([ \t]+)((?:pub(?:\([a-z]+\))?\s+)?)fn\s+%s\b(.*?)\{" % re.escape(mname), src, re.M | re.S)
+            if not om:
+                continue
+            header_rest = om.group(3)
+            pm = re.search(r"\((.*)\)", header_rest, re.S)
+            if not pm:
+                continue
+            mnames, depth, cur = [], 0, ""
+            for ch in pm.group(1) + ",":
+                if ch in "<([":
+                    depth += 1
+                elif ch in ">)]":
+                    depth -= 1
+                if ch == "," and depth == 0:
+                    c = cur.strip()
+                    if c:
+                        mnames.append("self" if re.match(r"^&?\s*(mut\s+)?self$", c) else c.split(":")[0].strip().replace("mut ", ""))
+                    cur = ""
+                else:
+                    cur += ch
+            path = "crate::verif_common::" + sname if smod == "common" else "crate::%s::verif_harness::%s" % (smod, sname)
+            fwd = "%s#[allow(dead_code)]\n%s%sfn %s%s{\n%s    %s(%s)\n%s}\n\n" % (om.group(1), om.group(1), om.group(2), mname, header_rest, om.group(1), path, ", ".join(mnames), om.group(1))
+            renamed = om.group(1) + "#[allow(dead_code)]\n" + om.group(1) + om.group(2) + "fn " + mname + "__verif_real" + header_rest + "{"
+            src = src[:om.start()] + fwd + renamed + src[om.end():]
+            open(sp, "w").write(src)
+            done.append("%s::%s -> %s" % (mod, fname, path))
+            continue
         om = re.search(r"^(\s*)((?:pub(?:\([a-z]+\))?\s+)?)fn\s+%s\b" % re.escape(fname), src, re.M)
         if not om:
             continue
